@@ -35,7 +35,7 @@ class Walk(object):
         nt = node.nodeType
         if nt == TEXT:
             ms = MARK_RE.findall(str(node))
-            if 'Zt' in node:
+            if 'Zt' in node or 'Zm' in node:
                 self.twins.append((str(node), tuple(_nm(p) for p in path)))
             if ms:
                 self.check_chain(node, path)
